@@ -118,7 +118,7 @@ def rand_tempo(rng: random.Random, prof: Profile, res: int):
 
 
 WORDS = ["solo", "soloend", "x", "a_b", "[idle]", "E", "N", "=", "k=v", "é", "日本", "a\tb", "7", "S2", "\"q\""]
-TEXT_ATOMS = ["lyric", "section", "lyric ", "section ", " ", "  ", "\"", "=", "[", "]", "{", "}", "la", "Intro", "1", "é",
+TEXT_ATOMS = ["lyric", "section", "lyric ", "section ", "Lyric ", "SECTION ", "Section ", "LYRIC ", "ſection ", " ", "  ", "\"", "=", "[", "]", "{", "}", "la", "Intro", "1", "é",
               "日本", "\t", "E", "phrase_start", "a", "-", "'", "\\", "\xa0", "N 0 0"]
 
 
@@ -194,7 +194,7 @@ def rand_src(rng: random.Random, prof: Profile | None = None) -> ChartSrc:
     for snake, pascal, kind in FIELDS[1:]:
         if rng.random() < prof.meta_fields:
             if kind == "int":
-                meta[snake] = rng.choice([0, 1, 7, rng.randint(0, 10**6)])
+                meta[snake] = rng.choice([0, 1, 7, rng.randint(0, 10**6), 2**53 + 1, rng.randint(10**16, 10**30)])
             elif kind == "p2":
                 meta[snake] = rng.choice(["bass", "rhythm"])
             else:
@@ -266,7 +266,7 @@ def pad(rng: random.Random, prof: Profile, default="  ") -> str:
 
 # unparsable lines per section kind — decided from the documented line formats (never by the code under test):
 # nothing here is a canonical line of the section it is inserted into
-GARBAGE_COMMON = ["garbage", "0 = X 1", "= N 0 0", "0 N 0 0", "{x", "x}", "  ", "", "0 = E", "0 = n 0 0", "-1 = N 0 0", "Resolution = x",
+GARBAGE_COMMON = ["  }", "} ", "\t{", " { ", "  {", "garbage", "0 = X 1", "= N 0 0", "0 N 0 0", "{x", "x}", "  ", "", "0 = E", "0 = n 0 0", "-1 = N 0 0", "Resolution = x",
                   "0 = E two words", "0 = B", "0 = TS", "0 = A x", "0 = N 0", "0 = S 2", "0 = B 12a", "0  = N 0 0", "0 = N  0 0"]
 GARBAGE = {
     "instrument": GARBAGE_COMMON + ["0 = S 64 10", "0 = N 8 0", "0 = S 0 5", "0 = N 10 0", "0 = S 2 5 5", "0 = B 120000", "0 = TS 4", "0 = A 5",
